@@ -35,6 +35,8 @@ PROPS["C16"] = {
         {"pkg": ".", "dir": "s3db", "entry": "VerifH_C16_codec",
          "quick": {"workers": 8, "timeout": 600}},
         {"pkg": "kv", "dir": "kv", "entry": "VerifH_C16_shared_cache", "quick": {"workers": 2, "timeout": 600}},
+        {"pkg": ".", "dir": "s3db", "entry": "VerifH_C16_fresh", "tag": "-cache",
+         "quick": {"params": "keys=3,commits=2,maxlayer=2,cache=8", "workers": 16, "timeout": 900}},
         {"pkg": ".", "dir": "s3db", "entry": "VerifH_C16_fresh",
          "quick": {"params": "keys=3,commits=2,maxlayer=2", "workers": 16, "timeout": 900, "samples": 3, "validate": 4},
          "thorough": {"params": "keys=4,commits=2,maxlayer=2", "workers": 16, "timeout": 3000}},
